@@ -102,9 +102,7 @@ theorem epi_kinds (hT : TreeNet net c) {t : Nat} {th : Thread} (hth : net.thread
     · exact Or.inr (Or.inr (Or.inr ⟨sv, rfl⟩))
   | sender m _ _ hok => rw [hok.2.2.1] at hi; simp at hi; exact Or.inl ⟨m, hi⟩
   | sink _ _ hok _ =>
-    rcases hok.2.2.2.2.2 with he | ⟨he, _⟩
-    · rw [he] at hi; simp at hi; exact Or.inr (Or.inl ⟨_, hi⟩)
-    · rw [he] at hi; simp at hi
+    rw [hok.2.2.2.2.2] at hi; simp at hi; exact Or.inr (Or.inl ⟨_, hi⟩)
 
 /-- an instruction that is not one of the epilogue kinds is executed in the body -/
 theorem TInv.inBody (hT : TreeNet net c) (h : TInv net c s) {t : Nat} {th : Thread} {ts : TSt} {i : Instr} {rest : List Instr}
@@ -311,7 +309,7 @@ theorem head_join (hT : TreeNet net c) (h : TInv net c s) {t : Nat} {th : Thread
       · cases h1
       · simp [Instr.isFail] at h1
       · simp [Instr.isDie] at h1
-    · rcases hok.2.2.2.2.2 with he | ⟨he, _⟩ <;> rw [he] at hm <;> simp at hm
+    · rw [hok.2.2.2.2.2] at hm; simp at hm
 
 /-- `dropEpi` occurs in no program of a tree-shaped net -/
 theorem head_not_dropEpi (hT : TreeNet net c) (h : TInv net c s) {t : Nat} {th : Thread} {ts : TSt} {rest : List Instr}
@@ -679,10 +677,8 @@ theorem head_kill_valid (hT : TreeNet net c) (h : TInv net c s) {t : Nat} {th : 
       · rcases hi with rfl | rfl <;> cases h1
       · rcases hi with rfl | rfl <;> simp [Instr.isFail] at h1
       · rcases hi with rfl | rfl <;> simp [Instr.isDie] at h1
-    · rcases hok.2.2.2.2.2 with he | ⟨he, _⟩
-      · rw [he] at hm; simp at hm
-        rcases hi with rfl | rfl <;> cases hm; exact hok.1
-      · rw [he] at hm; simp at hm
+    · rw [hok.2.2.2.2.2] at hm; simp at hm
+      rcases hi with rfl | rfl <;> cases hm; exact hok.1
 
 theorem kill_fields (a : AMB) (r : Exc) :
     (a.kill r).subs = a.subs ∧ (a.kill r).nSent = a.nSent ∧ (a.kill r).closed = a.closed ∧ (a.kill r).killed = true := by
